@@ -1,5 +1,6 @@
 // C02 - AES-GCM one-shot equals SP 800-38D for every length, AAD and tag size, every family, nt variants.
 #include "../common/aes_engine.hpp"
+#include "../common/periodic.hpp"
 
 struct Case {
         std::string fam;
@@ -8,6 +9,7 @@ struct Case {
         int tag_len = 16;
         int pl_in = 0, pl_out = 0, pl_aad = 0, pl_tag = 0, pl_iv = 0;
         uint32_t sh_in = 0, sh_out = 0, sh_aad = 0, sh_tag = 0, sh_iv = 0;
+        int giant = 0; // 1: one-shot DECRYPT of more than 2^32 bytes: periodic read-only ciphertext, aliasing sink as output
 };
 static std::vector<ae::GcmFam> g_fams;
 
@@ -17,7 +19,7 @@ static J to_json(const Case &c)
         j.set("fam", c.fam).set("dec", c.dec).set("nt", c.nt).set("inplace", c.inplace).set("seed", (unsigned long long) c.seed);
         j.set("len", (unsigned long long) c.len).set("aad_len", (unsigned long long) c.aad_len).set("tag_len", c.tag_len);
         j.set("pl_in", c.pl_in).set("pl_out", c.pl_out).set("pl_aad", c.pl_aad).set("pl_tag", c.pl_tag).set("pl_iv", c.pl_iv);
-        j.set("sh_in", c.sh_in).set("sh_out", c.sh_out).set("sh_aad", c.sh_aad).set("sh_tag", c.sh_tag).set("sh_iv", c.sh_iv);
+        j.set("sh_in", c.sh_in).set("sh_out", c.sh_out).set("sh_aad", c.sh_aad).set("sh_tag", c.sh_tag).set("sh_iv", c.sh_iv).set("giant", c.giant);
         return j;
 }
 static Case from_json(const J &j)
@@ -27,8 +29,108 @@ static Case from_json(const J &j)
         c.dec = j.num("dec", 0); c.nt = j.num("nt", 0); c.inplace = j.num("inplace", 0);
         c.seed = j.unum("seed", 1); c.len = j.unum("len", 0); c.aad_len = j.unum("aad_len", 0); c.tag_len = j.num("tag_len", 16);
         c.pl_in = j.num("pl_in", 0); c.pl_out = j.num("pl_out", 0); c.pl_aad = j.num("pl_aad", 0); c.pl_tag = j.num("pl_tag", 0); c.pl_iv = j.num("pl_iv", 0);
-        c.sh_in = j.unum("sh_in", 0); c.sh_out = j.unum("sh_out", 0); c.sh_aad = j.unum("sh_aad", 0); c.sh_tag = j.unum("sh_tag", 0); c.sh_iv = j.unum("sh_iv", 0);
+        c.sh_in = j.unum("sh_in", 0); c.sh_out = j.unum("sh_out", 0); c.sh_aad = j.unum("sh_aad", 0); c.sh_tag = j.unum("sh_tag", 0); c.sh_iv = j.unum("sh_iv", 0); c.giant = j.num("giant", 0);
         return c;
+}
+
+// ---- decrypt of more than 2^32 bytes.  The ciphertext is the periodic mapping (period 2^16 blocks), so GHASH over all of it is
+// cheap: absorbing one period maps y to y*H^(2^16) + B with B the result from y = 0 (GHASH is linear in y).  The plaintext goes
+// to the aliasing sink; its last MiB is compared with C xor keystream (counter = J0 + 1 + block index).
+static bool run_giant(const Case &c, const ae::GcmFam *g, pbt::Ctx &ctx, const std::string &site)
+{
+        auto failx = [&](const std::string &k, const std::string &m) { return ctx.fail(k + "|" + site, site + ": " + m); };
+        if (!c.dec || c.len < (1ull << 24) || c.len + 4096 > periodic::SPAN) { ctx.label("shrink artefact"); return true; }
+        std::vector<uint8_t> key = pbt::expandv(c.seed, g->bits / 8), iv = pbt::expandv(c.seed + 1, 12), aad = pbt::expandv(c.seed + 2, c.aad_len);
+        ref::Aes ra(key.data(), g->bits);
+        guard::Arena A;
+        guard::FaultInfo fi;
+        uint8_t *kd = A.alloc("key_data", sizeof(isal_gcm_key_data), 16, guard::END, 0x11);
+        uint8_t *cd = A.alloc("context_data", sizeof(isal_gcm_context_data), 16, guard::END, 0x22);
+        uint8_t *kbuf = A.alloc("key", key.size(), 1, guard::END);
+        memcpy(kbuf, key.data(), key.size());
+        int rc = 0;
+        if (!ae::gcm_prepare(*g, kbuf, kd, fi, &rc)) {
+                A.describe(fi);
+                return !failx("fault-pre", "fault in key precompute: " + fi.where);
+        }
+        A.set_readonly(kd);
+        uint8_t *a = A.alloc("aad", c.aad_len, 1, guard::END);
+        memcpy(a, aad.data(), c.aad_len);
+        A.set_readonly(a);
+        uint8_t *ivb = A.alloc("iv", 12, 1, guard::END);
+        memcpy(ivb, iv.data(), 12);
+        A.set_readonly(ivb);
+        uint8_t *tag = A.alloc("tag", c.tag_len, 1, guard::END, 0x99);
+        uint8_t *in = periodic::stream(), *out = periodic::sink();
+        void *fn = g->oneshot[1][c.nt];
+        bool ok = guard::guarded_call(fi, [&] {
+                if (g->api) rc = ((ae::gcm_oneshot_ifn) fn)(kd, cd, out, in, c.len, ivb, a, c.aad_len, tag, c.tag_len);
+                else ((ae::gcm_oneshot_fn) fn)(kd, cd, out, in, c.len, ivb, a, c.aad_len, tag, c.tag_len);
+        });
+        if (!ok) {
+                A.describe(fi);
+                return !failx("fault", "fault: " + fi.where + " (len " + std::to_string(c.len) + ")");
+        }
+        if (rc) return !failx("rc", "valid call returned " + std::to_string(rc));
+        // expected tag
+        uint8_t zero[16] = { 0 }, hk[16], y[16] = { 0 }, blk[16], j0[16];
+        ra.encrypt(zero, hk);
+        ref::Ghash G(hk);
+        for (size_t o = 0; o < c.aad_len; o += 16) {
+                size_t n = c.aad_len - o < 16 ? c.aad_len - o : 16;
+                memset(blk, 0, 16);
+                memcpy(blk, aad.data() + o, n);
+                G.absorb(y, blk);
+        }
+        const uint64_t PB = periodic::PERIOD / 16;
+        uint8_t hp[16], B[16] = { 0 };
+        memcpy(hp, hk, 16);
+        for (uint64_t q = 1; q < PB; q <<= 1) { uint8_t t[16]; memcpy(t, hp, 16); ref::ghash_mul(hp, t); } // H^(2^16)
+        for (uint64_t i = 0; i < PB; i++) G.absorb(B, in + 16 * i);
+        uint64_t full = c.len / 16;
+        for (uint64_t p = 0; p < full / PB; p++) {
+                ref::ghash_mul(y, hp);
+                for (int k = 0; k < 16; k++) y[k] ^= B[k];
+        }
+        for (uint64_t i = 0; i < full % PB; i++) G.absorb(y, in + 16 * i); // (the mapping repeats: these are the blocks after the last whole period)
+        if (c.len % 16) {
+                memset(blk, 0, 16);
+                memcpy(blk, in + 16 * (full % PB), c.len % 16);
+                G.absorb(y, blk);
+        }
+        uint64_t abits = c.aad_len * 8, cbits = c.len * 8;
+        for (int k = 0; k < 8; k++) { blk[k] = (uint8_t) (abits >> (56 - 8 * k)); blk[8 + k] = (uint8_t) (cbits >> (56 - 8 * k)); }
+        G.absorb(y, blk);
+        memcpy(j0, iv.data(), 12);
+        j0[12] = j0[13] = j0[14] = 0;
+        j0[15] = 1;
+        uint8_t ej0[16];
+        ra.encrypt(j0, ej0);
+        for (int k = 0; k < 16; k++) y[k] ^= ej0[k];
+        if (memcmp(tag, y, c.tag_len))
+                if (failx("tag-giant", "tag differs from SP 800-38D for a decrypt of " + std::to_string(c.len) + " bytes (aad " + std::to_string(c.aad_len) + "): got " + ref::hex(tag, c.tag_len) +
+                                               " want " + ref::hex(y, c.tag_len)))
+                        return false;
+        // expected plaintext, last MiB
+        uint64_t first = (c.len - periodic::PERIOD + 15) / 16 * 16; // (earlier bytes of the sink have been overwritten by later ones)
+        for (uint64_t o = first; o < c.len; o += 16) {
+                uint8_t ctr[16], ks[16];
+                memcpy(ctr, j0, 12);
+                uint32_t cv = (uint32_t) (1 + 1 + o / 16);
+                ctr[12] = (uint8_t) (cv >> 24); ctr[13] = (uint8_t) (cv >> 16); ctr[14] = (uint8_t) (cv >> 8); ctr[15] = (uint8_t) cv;
+                ra.encrypt(ctr, ks);
+                uint64_t n = c.len - o < 16 ? c.len - o : 16;
+                for (uint64_t k = 0; k < n; k++)
+                        if ((uint8_t) (in[o + k] ^ ks[k]) != out[o + k]) {
+                                if (failx("output-giant", "plaintext differs from SP 800-38D at byte " + std::to_string(o + k) + " of " + std::to_string(c.len))) return false;
+                                o = c.len;
+                                break;
+                        }
+        }
+        ctx.label("giant decrypt (> 2^32 bytes)");
+        ctx.label("fam=" + c.fam + (c.nt ? "/nt" : ""));
+        ctx.nontrivial = true;
+        return true;
 }
 
 static bool run(const Case &c, pbt::Ctx &ctx)
@@ -40,6 +142,7 @@ static bool run(const Case &c, pbt::Ctx &ctx)
         const std::string site = c.fam + (c.nt ? "/nt" : "") + (c.dec ? "/dec" : "/enc");
         auto failx = [&](const std::string &k, const std::string &m) { return ctx.fail(k + "|" + site, site + ": " + m); };
         if (!g->oneshot[c.dec][c.nt]) { ctx.label("absent-entry"); return true; }
+        if (c.giant) return run_giant(c, g, ctx, site);
 
         std::vector<uint8_t> key = pbt::expandv(c.seed, g->bits / 8), iv = pbt::expandv(c.seed + 1, 12), aad = pbt::expandv(c.seed + 2, c.aad_len),
                              pt = pbt::expandv(c.seed + 3, c.len);
@@ -148,6 +251,21 @@ int main(int argc, char **argv)
         P.gen = [](pbt::Ctx &ctx) {
                 using namespace pbt;
                 Case c;
+                static long case_no = 0;
+                if (case_no < ctx.optnum("giants", 0)) {
+                        const ae::GcmFam &gg = g_fams[(size_t) (ctx.optnum("worker", 0) + case_no * ctx.optnum("workers", 1)) % g_fams.size()];
+                        case_no++;
+                        c.giant = 1;
+                        c.fam = gg.label();
+                        c.dec = 1;
+                        c.nt = gg.oneshot[1][1] ? coin(1, 3) : 0;
+                        c.seed = rng64(1, UINT64_MAX - 8);
+                        c.len = (1ull << 32) + (coin(1, 3) ? pick<uint64_t>({ 0, 1, 15, 16, 17, 255 }) : rng<uint64_t>(0, 1 << 20));
+                        if (c.nt) c.len &= ~63ull;
+                        c.aad_len = ae::gen_aad_len();
+                        c.tag_len = pick<int>({ 16, 12, 8 });
+                        return c;
+                }
                 const ae::GcmFam &g = g_fams[rng<size_t>(0, g_fams.size() - 1)];
                 c.fam = g.label();
                 c.dec = coin();
